@@ -132,6 +132,10 @@ def run(ck, ctx):
                  build_kw=dict(tier=ck.tier, constraints=True, set_null=False, final=("modes",)))]
     jobs += [dict(module="clauses", only_rules={"O-mode", "O-final"}, build_kw=dict(group=g, tier=ck.tier, final=("modes",))) for g in GROUPS]
     run_fragments(ck, ctx, jobs)
+    # ---- scripts with several ALTER / CREATE INDEX statements on one table, formatted in five modes: no mode turns the script into an
+    # error, columns and index of the target equal the default mode's
+    from ..specs.alter import check_sequences
+    check_sequences(ck, ctx, rule="O-mode")
     ck.assumptions += ["dataclasses' field-collection rule (reverse MRO overlay) and Field.metadata semantics as in CPython 3.12",
                        "declined: deep equality of values across modes at run time; it follows from non-interference (T-FLAGFLOW) plus "
                        "the mode-specific code touching only non-common keys (T-MODE.hooks)"]
